@@ -1,6 +1,7 @@
 """Per-property check definitions (driver side).  See DESIGN.md section 4."""
 import json
 import os
+import re
 import time
 
 import vplib
@@ -479,6 +480,7 @@ def check_c12(tier, seed):
     cfgs = c12_configs(tier)
     srcs = ["common.c", "pin.c", "families.c", "alloc.c", "obj.c", "mc.c", "h_cfg.c"]
     host_max = 2   # the harness refuses a back end the host cannot execute
+    crashed = []
 
     def one(name, kw):
         lib = LibBuild(name=name, **kw).build(st, jobs=4)
@@ -491,6 +493,10 @@ def check_c12(tier, seed):
             except EngineError as e:
                 if "not available in this build/host" in str(e):
                     continue
+                mm = re.search(r"harness exit -(\d+)", str(e))
+                if mm:      # the battery died of a signal in this configuration: that is a result, not an engine failure
+                    crashed.append((name, be, int(mm.group(1))))
+                    continue
                 raise
             runs.append((name, be, res))
         shutil_rm(lib.dir)
@@ -498,6 +504,9 @@ def check_c12(tier, seed):
     allruns = []
     for chunk in run_parallel([lambda n=n, kw=kw: one(n, kw) for n, kw in cfgs], workers=4):
         allruns += chunk
+    for name, be, sig in crashed:
+        v.new.append({"sig": "C12/battery-crashes-in-one-configuration/be%d" % be, "case": "", "label": name, "replay": None,
+                      "detail": "the battery, which completes in the reference configuration, died of signal %d in configuration %s on back end %s" % (sig, name, ["gen", "v128", "v256"][be])})
     ref_name, ref_be, ref = allruns[0]
     ncmp = 0
     for name, be, res in allruns:
@@ -562,7 +571,12 @@ def check_c13(tier, seed):
     import re as _re
     pa = vplib.sh(["objdump", "-d", "--no-show-raw-insn", libs[0].lib], check=False)
     cur = None
-    vex = _re.compile(r"^\s*[0-9a-f]+:\s+(v[a-z0-9]+)\b|%[yz]mm\d")
+    # VEX/EVEX-encoded, or an instruction of an extension beyond SSE2 (SSE3, SSSE3, SSE4.x, AES, PCLMUL, BMI, MOVBE, POPCNT/LZCNT)
+    vex = _re.compile(r"^\s*[0-9a-f]+:\s+(v[a-z0-9]+|pshufb|palignr|pabs[bwd]|phaddw|phaddd|phaddsw|phsubw|phsubd|phsubsw|pmaddubsw|pmulhrsw|psign[bwd]|"
+                      r"pblendw|pblendvb|blendp[sd]|blendvp[sd]|pmuldq|pmulld|pminsb|pminsd|pminuw|pminud|pmaxsb|pmaxsd|pmaxuw|pmaxud|pextr[bdq]|pinsr[bdq]|ptest|"
+                      r"roundp[sd]|rounds[sd]|dpp[sd]|packusdw|pmovsx[a-z]+|pmovzx[a-z]+|pcmpeqq|pcmpgtq|crc32[bwlq]?|pcmp[ie]str[im]|popcnt[wlq]?|lzcnt[wlq]?|tzcnt[wlq]?|"
+                      r"aes[a-z]+|pclmul[a-z]*|andn[lq]?|bextr[lq]?|bls[ir][lq]?|blsmsk[lq]?|pdep[lq]?|pext[lq]?|bzhi[lq]?|mulx[lq]?|rorx[lq]?|sarx[lq]?|shlx[lq]?|shrx[lq]?|"
+                      r"movbe[wlq]?|lddqu|haddp[sd]|hsubp[sd]|addsubp[sd]|movddup|movshdup|movsldup|mpsadbw|phminposuw|extractps|insertps|movntdqa)\b|%[yz]mm\d")
     for line in (pa.stdout or "").splitlines():
         mh = _re.match(r"^(\S+\.o):\s+file format", line)
         if mh:
@@ -579,7 +593,7 @@ def check_c13(tier, seed):
     for k, a in sorted(audit.items()):
         if a[1] and not k.endswith("-vec256.o"):
             v.new.append({"sig": "C13/object-needs-avx/%s" % k, "case": "", "label": libs[0].name, "replay": None,
-                          "detail": "%s (built by src/Makefile, reachable on a CPU with SSE2 only) contains %d VEX-encoded instruction(s) of %d, first: %s" % (k, a[1], a[0], a[2])})
+                          "detail": "%s (built by src/Makefile and options.mak, reachable on a CPU with SSE2 only) contains %d instruction(s) of %d that need more than SSE2, first: %s" % (k, a[1], a[0], a[2])})
     states = sum(val for k, val in merged.notes.items() if k.startswith("environment_states"))
     cov = {"states": int(states), "transitions": merged.evaluations, "traces_validated_against_impl": merged.evaluations,
            "instruction_audit": {k: {"instructions": a[0], "vex_encoded": a[1]} for k, a in sorted(audit.items())},
@@ -588,7 +602,7 @@ def check_c13(tier, seed):
                    "leaf-7 sub-leaf-1 contents {0, ones} x all other feature bits {0, ones}, consistent CPUs only, answered through the guarded CPUID/XGETBV seam; every state x each of the six init "
                    "functions executed twice (different caller registers, stack paint and prior content of the caller's object: 0x00 / 0xFF) on builds with both SIMD back ends, with only the 128-bit one and with none compiled in; oracle: selected vtable / function table and "
                    "parallel_size == widest back end compiled in and usable in that state. (a) the real CPU: six inits x 14 caller-register/stack/object patterns x 3 repetitions through an assembly trampoline, same three builds, "
-                   "oracle = the compiler's CPU detection; transitions = init calls judged. (c) every instruction of every object of the Makefile-built library is decoded: only the two 256-bit back-end objects may contain VEX-encoded instructions (they are the control)",
+                   "oracle = the compiler's CPU detection; transitions = init calls judged. (c) every instruction of every object of the Makefile-built library is decoded: only the two 256-bit back-end objects may contain instructions beyond the x86-64 baseline with SSE2 (VEX-encoded, SSE3/SSSE3/SSE4.x, AES, BMI, ...); they are the control",
            "samples": merged.samples, "notes": merged.notes, "calls_per_build": per, "builds": [l.describe() for l in libs]}
     return v.finish("model_checking", cov, ["x86 only (NEON has no run-time probe)", "model states that would select a back end the host cannot execute are skipped and counted"], exhaustive=True)
 
